@@ -112,6 +112,41 @@ def audit(tag, mol, warns, found, rep, complete_res):
     return nh
 
 
+def corr_electrons(chk, mols):
+    """number of hydrogens added and steric number of every protonated protein atom vs model/Electrons.v"""
+    kinds = {}
+    for tag, mol in mols:
+        for cname in mol.conformation_names:
+            for a in mol.conformations[cname].atoms:
+                if a.type != "atom" or a.element == "H" or not a.is_protonated:
+                    continue
+                nh = sum(1 for b in a.bonded_atoms if b.element == "H")
+                nb = len(a.bonded_atoms) - nh
+                k = (a.element, a.res_name, a.name, a.terminal or "", nb)
+                v = (nh, a.steric_number)
+                if k in kinds and kinds[k][0] != v:
+                    kinds[("dup", len(kinds)) + k] = (v, f"{tag}/{cname} {a}")
+                else:
+                    kinds.setdefault(k, (v, f"{tag}/{cname} {a}"))
+    keys = list(kinds)
+    oc = lambda s: "(of_codes [" + "; ".join(str(ord(c)) for c in s) + "]%Z)"
+    exprs = []
+    for k in keys:
+        el, res, name, term, nb = k[-5:]
+        exprs.append(f"[protons_to_add {oc(el)} {oc(res)} {oc(name)} {oc(term)} {nb}; steric_number {oc(el)} {oc(res)} {oc(name)} {oc(term)} {nb}]")
+    pre = "From Coq Require Import String List ZArith.\nFrom V Require Import PyString Protonate_gen Electrons.\nImport ListNotations.\nOpen Scope Z_scope.\n"
+    res = common.coq_eval("c17e", pre, exprs, shard=300)
+    dis = []
+    for k, r in zip(keys, res):
+        (nh, st), where = kinds[k]
+        want_h = max(r[0], 0) if r[1] in (3, 4) else 0      # hydrogens are only built for steric numbers 3 and 4, never a negative number
+        if (nh, st) != (want_h, r[1]) and not (r[1] not in (3, 4) and st == r[1]):
+            dis.append({"atom": where, "kind": [str(x) for x in k[-5:]], "impl": [nh, st], "model": r})
+    chk.corr_stats["hydrogen count / steric number of protonated protein atoms ~ model/Electrons.v"] = {"distinct_atom_kinds": len(keys), "disagreements": len(dis)}
+    chk.cov["traces_validated_against_impl"] += len(keys)
+    return dis
+
+
 def complete_residues(text):
     """(chain, num, icode) of ATOM residues with the full heavy-atom count whose chain neighbours (previous C, next N) are present"""
     from propka.lib import EXPECTED_ATOM_NUMBERS
@@ -173,6 +208,8 @@ def run(chk: common.Check):
     rots = structures.rotations24()
     nh_total = 0
 
+    emols = []
+
     def study(name, text, opts, nposes, axis_bonds=()):
         nonlocal nh_total
         comp = complete_residues(text)
@@ -190,6 +227,8 @@ def run(chk: common.Check):
                 found.append(("crash", f"{name} {what}: {type(ex).__name__}: {ex}", rep))
                 continue
             chk.count(1, key=("pose", name, what, tuple(opts)))
+            if what == "as deposited":
+                emols.append((name, mol))
             nh_total += audit(f"{name} {what}", mol, warns, found, rep, comp)
             hs = hydrogens_in_frame(mol, inv)
             if ref is None:
@@ -260,6 +299,7 @@ def run(chk: common.Check):
         t3 = structures.read("1FTJ-Chain-A.pdb")
         study("1FTJ-Chain-A (ligand GLU)", t3, [], 2, axis_bonds=one_neighbour_bonds(t3, True, 2))
         study("4DFR", structures.read("4DFR.pdb"), [], 1)
+    edis = corr_electrons(chk, emols) if (proved or not missing) else []
     chk.cov["hydrogens_audited"] = nh_total
     chk.sample({"hydrogens_audited": nh_total})
     uniq = {}
@@ -269,8 +309,8 @@ def run(chk: common.Check):
     gv = getattr(chk, "_genval_dis", [])
     if missing or not proved:
         chk.broken("proof", "props/C17.v" if not missing else f"translation of {missing[0][1]}", chk.broken_obligation, search_fn=lambda: found)
-    elif gv:
-        chk.broken("correspondence", "generated model ~ propka.vector_algebra", {"genval": gv[:3]}, search_fn=lambda: found)
+    elif gv or edis:
+        chk.broken("correspondence", "generated model ~ propka.vector_algebra; model/Electrons.v ~ protonate.py electron bookkeeping", {"genval": gv[:3], "electrons": edis[:5]}, search_fn=lambda: found)
     else:
         for sig, what, rep in found:
             chk.finding(sig, what, rep)
